@@ -665,8 +665,8 @@ class Gen:
             if r.random() < 0.05:
                 ed = r.choice(["0", "1", "2"]) + digits(r, 2)
                 self.hit("REAL:exp-3-digits")
-            if r.random() < 0.25:
-                fr = r.choice([None, ""]) if mk != "f" or True else fr
+            if r.random() < 0.2:
+                fr = None if (mk == "f" and r.random() < 0.85) else r.choice([None, ""])
             ex = [mk, es, ed]
             self.hit("REAL:exp-" + mk + {"n": "", "p": "+", "m": "-"}[es])
             if mk == "f" and fr == "":
@@ -784,8 +784,11 @@ class Gen:
     # ---- particles
     def particle(self, where):
         r = self.rng
-        if r.random() < 0.88:
-            p = r.choice(COMMON_PARTICLES if r.random() < 0.8 else list("qvfhlogkbcw") + list("|<>%*?"))
+        if r.random() < 0.93 or where == "cell" and r.random() < 0.5:
+            if where == "cell":
+                p = r.choice(COMMON_PARTICLES[:-1] if r.random() < 0.8 else list("qvfhlogkbw"))
+            else:
+                p = r.choice(COMMON_PARTICLES if r.random() < 0.8 else list("qvfhlogkbw") + list("|<>%*?"))
         else:
             p = r.choice(ALL_PARTICLES)
         self.hit("pl:" + p)
@@ -844,7 +847,7 @@ class Gen:
                 k += c or 1
                 self.hit("NL:nR" if c else "NL:R")
             elif choice == "mul":
-                if r.random() < 0.12:
+                if r.random() < 0.06:
                     x = self.real("UREAL", nonzero=True)
                     if x[3] is None and x[4] is None:
                         x[3] = "5"
@@ -962,7 +965,7 @@ class Gen:
                 f = ["par", pl, e]
             elif can_touch and r.random() < 0.4:
                 sep = None
-                if r.random() < 0.15 and ctx["compl"]:
+                if r.random() < 0.08 and ctx["compl"]:
                     self.hit("term:(fact)#INT")
                     f = ["ccell", ["r", "n", str(r.choice(ctx["compl"])), None, None]]
                     self.emit(fact_toks(f))
@@ -1005,7 +1008,7 @@ class Gen:
         """(trbody) value of FILL / TRCL, with or without padding after the parenthesis"""
         self.emit([("(", "(")])
         pl = None
-        if self.rare(0.12):
+        if self.rare(0.06):
             pl = self.pad(allow_break=False)
             self.tags.add("paren-lead-pad:" + kind)
             self.hit("L:pad-after-(-in-" + kind)
@@ -1227,7 +1230,7 @@ class Gen:
             a = r.choice(aa)
             base = "%d%03d" % (z, a)
             x = r.random()
-            if x < 0.25:
+            if x < (0.25 if not seen_lib else 0.04):
                 lib, zz = False, base
                 self.hit("zaid:no-library")
                 if seen_lib:
@@ -1309,7 +1312,7 @@ class Gen:
         r = self.rng
         self.tags = set()
         lead = self.lead()
-        mod = r.choice([None, None, None, "*", "+"])
+        mod = r.choice([None, None, None, None, "*", "*", "+"]) if r.random() < 0.5 else None
         self.hit("F:modifier-" + (mod or "none"))
         if mod == "+":
             self.tags.add("tally-mod:+")
@@ -1325,7 +1328,7 @@ class Gen:
             if r.random() < 0.4:
                 self.emit([("(", "(")])
                 pl = None
-                if self.rare(0.12):
+                if self.rare(0.06):
                     pl = self.pad(allow_break=False)
                     self.tags.add("paren-lead-pad:tally")
                     self.hit("L:pad-after-(-in-tally")
@@ -1413,7 +1416,7 @@ class Gen:
         self.tags = set()
         lead = self.lead()
         cls = self.dcls("sdef")
-        n = r.choice([0, 1, 2, 3, 3, 5]) if r.random() < 0.15 else r.choice([1, 2, 3, 3, 5])
+        n = r.choice([0, 1, 2, 3, 3, 5]) if r.random() < 0.12 else r.choice([1, 2, 3, 3, 5])
         if n == 0:
             self.tags.add("sdef-empty")
             self.hit("SDEF:no-parameters")
@@ -1544,7 +1547,7 @@ def gen_problem(rng, wild=0.0, size=None):
     nmode = r.choice([1, 1, 2, 2, 3])
     mode = []
     while len(mode) < nmode:
-        s, p = g.particle("data") if r.random() < 0.25 else (False, r.choice("npe"))
+        s, p = g.particle("data") if r.random() < 0.12 else (False, r.choice("npe"))
         if p not in [q for _, q in mode]:
             mode.append((s, p))
     where = {k: r.choice(["cell", "cell", "data", "none"]) for k in ("vol", "u", "lat", "fill")}
@@ -1584,7 +1587,7 @@ def gen_problem(rng, wild=0.0, size=None):
         if where["fill"] == "cell" and fill_of.get(c):
             keys.append("fill")
         ne = r.choice([0, 0, 0, 1, 1, 2, 3])
-        keys += r.sample(extra_keys, ne)
+        keys += r.sample(extra_keys if r.random() < 0.25 else [k_ for k_ in extra_keys if k_ not in ("nonu", "unc")], ne)
         r.shuffle(keys)
         ctx = {"num": c, "surfs": surfs, "compl": cells[:k], "mat": r.choice([0] + mats), "univs": univs, "trs": trs,
                "params": [], "u": u_of.get(c)}
@@ -1640,7 +1643,8 @@ def gen_problem(rng, wild=0.0, size=None):
         cards.append(lambda vals=vals: g.data_numbers("u", len(vals), values=vals))
         g.hit("U-card")
     if where["lat"] == "data":
-        vals = [g.simple(str(lat_of[c] or 0)) for c in cells]
+        lats = [lat_of[c] or r.choice([1, 2]) for c in cells]
+        vals = [g.simple(str(v)) for v in lats]
         cards.append(lambda vals=vals: g.data_numbers("lat", len(vals), values=vals))
         g.hit("LAT-card")
     if where["fill"] == "data" and where["u"] != "none":
@@ -1807,6 +1811,14 @@ def features(sh):
             _ptag(s, p, "data", out)
     if sh[0] == "sdef" and not sh[4]:
         out.add("sdef-empty")
+    if sh[0] == "data" and sh[2][1] in ("imp", "vol", "u", "lat", "fill") and sh[5][0] == "dnums":
+        for it, _ in sh[5][1]:
+            if it[0] != "num":
+                out.add("percell-shortcut:%s:%s" % (sh[2][1], it[0]))
+    if sh[0] == "mcard":
+        for m in sh[5]:
+            if m[0] == "mpl" and m[3].endswith("e"):
+                out.add("lib-suffix-e")
     if sh[0] == "mcard":
         seen = False
         for z in sh[4]:
@@ -1876,6 +1888,10 @@ def without(sh, tag):
                 return [n[0], None] + n[2:]
             return n
         return map_tree(sh, f)
+    if kind in ("percell-shortcut", "chained-shortcuts-3"):
+        return map_tree(sh, lambda n: expand_plain(n) if is_nlist(n) else n)
+    if kind == "lib-suffix-e":
+        return sh[:5] + [[(m[:3] + [m[3][:-1] + "c"] + m[4:]) if (m[0] == "mpl" and m[3].endswith("e")) else m for m in sh[5]]]
     if kind == "mul-real":
         return map_tree(sh, lambda n: ["mul", ["r", "n", "2", None, None]] if is_node(n, {"mul"}) else n)
     if tag == "real:zaid-like":
@@ -1912,6 +1928,26 @@ def replace_at(node, path, new):
     out = list(node)
     out[path[0]] = replace_at(node[path[0]], path[1:], new)
     return out
+
+
+def expand_plain(l):
+    """a numeric list with every shortcut replaced by as many plain numbers as it stands for"""
+    out = []
+    one = ["r", "n", "1", None, None]
+    for it, p in l:
+        k = it[0]
+        if k == "num":
+            out.append([it, p])
+            continue
+        n = {"j": it[1] or 1, "rep": it[1] or 1, "mul": 1}.get(k, 0) if k in ("j", "rep", "mul") else (it[1] or 1)
+        items = [["num", one]] * n + ([["num", it[3]]] if k in ("int", "log") else [])
+        for j, x in enumerate(items):
+            out.append([x, p if j == len(items) - 1 else ["sp", 0]])
+    return out
+
+
+def is_nlist(n):
+    return isinstance(n, list) and n and all(isinstance(e, list) and len(e) == 2 and is_node(e[0], {"num", "j", "rep", "mul", "int", "log"}) for e in n)
 
 
 def simplify_pads(sh):
